@@ -178,6 +178,7 @@ def planted_cross_world(rng, gd):
 
 
 def run_shard(ctx):
+    gg.ALLOW_ODD = True  # node names that are not Python identifiers are node names like any other
     gg.ALLOW_PREFIXED = False  # a name T_x is a selection node for the transport algorithms
     mon_ctf.install_ctf()
     K = {"quick": 2, "thorough": 3}[ctx.tier]
